@@ -1,8 +1,62 @@
-(* C15 - menu completion cycles through every candidate exactly once. *)
+(* C15 - menu completion cycles through every candidate exactly once.
+   Property theorems only; proofs are in Proofs/GridP.v.  The model (Model/Grid.v) is
+   the selector of internal/completion: moveSelector, findFirstCandidate, firstCell,
+   lastCell, group cycling and Engine.Select; a group is the shape of its grid.
+   Proved here for EVERY plain (non-aliased) grid: any number of rows, rows of any
+   lengths >= 1.  rank_plain numbers the cells of a grid in row-major order and is a
+   bijection between the cells and [0, total): a menu-complete step moves from a cell
+   to the cell of the next rank and reports the end of the group exactly on the last
+   one, menu-complete-backward to the previous rank and reports the start exactly on
+   the first; entering a group from its successor lands on the last rank, from its
+   predecessor on rank 0.  Hence N steps in one direction show N distinct candidates
+   - all of them - and the next step starts over.
+   NOT proved (DESIGN.md C15): the same for aliased groups (column-major walk over ragged
+   rows through findFirstCandidate) and the composition over several groups; both are
+   in the model and are compared with the implementation on every run. *)
 From Model Require Import Base Grid.
+From Proofs Require Import GridP.
 Open Scope Z_scope.
 
+Theorem C15_plain_forward_step : forall g c, wf_plain g -> valid g c ->
+  match move_selector (at_cell g c) 1 0 with
+  | Ok (g', false, _) => g' = at_cell g (pos_of g') /\ valid g (pos_of g') /\ rank_plain g (pos_of g') = rank_plain g c + 1
+  | Ok (_, true, next) => next = true /\ rank_plain g c = total g - 1
+  | _ => False
+  end.
+Proof. exact plain_forward_rank. Qed.
+
+Theorem C15_plain_backward_step : forall g c, wf_plain g -> valid g c ->
+  match move_selector (at_cell g c) (-1) 0 with
+  | Ok (g', false, _) => g' = at_cell g (pos_of g') /\ valid g (pos_of g') /\ rank_plain g (pos_of g') = rank_plain g c - 1
+  | Ok (_, true, next) => next = false /\ rank_plain g c = 0
+  | _ => False
+  end.
+Proof. exact plain_backward_rank. Qed.
+
+(* the rank is a numbering of the cells: within [0, total), no two cells share one *)
+Theorem C15_plain_rank_is_a_numbering : forall g, wf_plain g ->
+  (forall c, valid g c -> 0 <= rank_plain g c < total g) /\
+  (forall c1 c2, valid g c1 -> valid g c2 -> rank_plain g c1 = rank_plain g c2 -> c1 = c2).
+Proof. intros g W. split; [intros c; apply rank_plain_range; exact W | intros c1 c2; apply rank_plain_inj; exact W]. Qed.
+
+(* how a group is entered: its first use, and coming back from the next / previous group *)
+Theorem C15_plain_entry : forall g, wf_plain g ->
+  (g_px g = -1 -> g_py g = -1 -> move_selector g 1 0 = Ok (set_pos g 0 0, false, false)) /\
+  (g_px g = -1 -> g_py g = -1 -> move_selector g (-1) 0 = Ok (set_pos g 0 0, true, false)) /\
+  rank_plain g (pos_of (first_cell g)) = 0 /\
+  (exists g', last_cell g = Ok g' /\ g' = at_cell g (pos_of g') /\ valid g (pos_of g') /\ rank_plain g (pos_of g') = total g - 1).
+Proof.
+  intros g W. split; [apply plain_fresh_forward; exact W|]. split; [apply plain_fresh_backward; exact W|].
+  split; [reflexivity | apply plain_last_rank; exact W].
+Qed.
+
+(* non-vacuity: a 3-row grid (4, 4, 2 candidates); and an aliased two-group run of the model *)
 Example C15_example :
+  wf_plain (fresh_group [4; 4; 2] false 4 3 4) /\ valid (fresh_group [4; 4; 2] false 4 3 4) (1, 3) /\
   run_selects {| e_groups := [fresh_group [4; 3; 1] true 4 3 4; fresh_group [1] false 1 1 1]; e_cur := -1 |} [1; 1; 1; 1]
   = [Ok (Some (0, 0, 0)); Ok (Some (0, 1, 0)); Ok (Some (0, 2, 0)); Ok (Some (0, 0, 1))].
-Proof. vm_compute. reflexivity. Qed.
+Proof.
+  split; [|split; [|vm_compute; reflexivity]].
+  - unfold wf_plain, rows_pos, nrows, zlen, fresh_group. cbn. repeat split; try lia; try reflexivity. repeat constructor; lia.
+  - unfold valid. repeat split; try (vm_compute; reflexivity); vm_compute; discriminate.
+Qed.
